@@ -196,6 +196,7 @@ def validate_path(scn, res, ctx, replay, stats):
 
 from view import to_view
 import oracle as O
+from interp import Unsupported
 
 
 def witness(scn, res, ctx, replay, cond=None):
@@ -272,11 +273,13 @@ class AstChecks:
     def oracles(self, I, ctx, res, inv, outv, er, erased):
         vs = []
         vs += O.check_C02(inv, er, erased)
-        vs += O.check_C03(er)
+        vs += O.check_C03(er, res['cfgspec'].terms)
         vs += O.check_C15_C12(outv, to_view(res['H'].status(), I.P.defs), O.count_hooks(outv))
         vs += O.check_C05_names(er, res['cfgspec'].terms)
         vs += O.check_C06_block(outv, er) if isinstance(outv, dict) and outv.get('_t') == 'BlockStmt' else []
-        return vs, 5 + len(er.hooks)
+        vs += O.check_C06_collision(inv, outv, to_view(res['H'].status(), I.P.defs), res['cfgspec'].prefix)
+        vs += O.check_C04(inv, outv, er, erased, res['cfgspec'].terms)
+        return vs, 7 + len(er.hooks)
 
     def check_path(self, I, ctx, res, replay, do_tv):
         defs = I.P.defs
@@ -289,7 +292,15 @@ class AstChecks:
                 w = witness(self, res, ctx, replay)
                 info['tv'] = {'agree': bool(w and w['agree']), 'why': w and w.get('why'), 'input': w and w['input']}
             return info
-        inv = to_view(self.input_tree(res), defs)
+        # model completion first: nodes the code never inspected are arbitrary; they are instantiated with the grammar's
+        # first alternative (chosen to be the adversarial one where it matters, e.g. a string-literal statement at a
+        # leading position), so that the oracles judge a fully determined input/output pair
+        inp = self.input_tree(res)
+        complete_tree(I.grammar, inp)
+        complete_tree(I.grammar, res['out'])
+        if not ctx.check():
+            raise Unsupported('path condition unsatisfiable after model completion')
+        inv = to_view(inp, defs)
         outv = to_view(res['out'], defs)
         er, erased = O.hooks_of(outv)
         info['hooks'] = len(er.hooks)
@@ -411,11 +422,12 @@ class ProgramScenario(AstChecksBase):
     def oracles(self, I, ctx, res, inv, outv, er, erased):
         vs = []
         vs += O.check_C02_program(inv, er, erased)
-        vs += O.check_C03(er)
+        vs += O.check_C03(er, res['cfgspec'].terms)
         vs += O.check_C15_C12(outv, to_view(res['H'].status(), I.P.defs), O.count_hooks(outv))
         vs += O.check_C12_program(inv, outv, to_view(res['H'].status(), I.P.defs))
         vs += O.check_C05_names(er, res['cfgspec'].terms)
         vs += O.check_C06_program(outv, res['cfgspec'].prefix)
         vs += O.check_C07(inv, outv)
+        vs += O.check_C06_collision(inv, outv, to_view(res['H'].status(), I.P.defs), res['cfgspec'].prefix)
         vs += O.check_C04(inv, outv, er, erased, res['cfgspec'].terms)
         return vs, 8 + len(er.hooks)
